@@ -43,6 +43,14 @@ type Case struct {
 
 func genCase(t *rapid.T) Case {
 	c := Case{Kind: rapid.SampledFrom(kindsPool()).Draw(t, "kind")}
+	// documents cost about 0.3 s each (four orders of magnitude more than the other kinds): about one case in 32
+	isDoc := true
+	for i := 0; i < 5; i++ {
+		isDoc = rapid.Bool().Draw(t, "docbit") && isDoc
+	}
+	if isDoc {
+		c.Kind = "doc"
+	}
 	switch c.Kind {
 	case "schema":
 		o := gen.SchemaOpts{MaxDepth: 3, Formats: reg.Names, Defaults: true, ObjectBias: rapid.Bool().Draw(t, "objbias")}
